@@ -14,3 +14,5 @@ for id in "$@"; do
   if [ $rc = 1 ]; then echo "CAUGHT by $id (rc=1): $classes"; elif [ $rc = 0 ]; then echo "missed by $id (rc=0)"; else echo "ERROR in $id (rc=$rc): $(tail -3 $log | tr '\n' ' ')"; fi
 done
 git -C /repo checkout -- . ; git -C /repo status --short | head -3
+# leave binaries of the unchanged tree behind
+(cd /verif && ./build.sh dev >/dev/null 2>&1; if [ -d target/sim-asan ]; then ./build.sh asan >/dev/null 2>&1; fi)
